@@ -1,5 +1,6 @@
 SPECIFICATION Spec
 CONSTANTS MaxEdit = 2  MaxInv = 3  MaxKill = 0  MaxFail = 0  GenDepth = 0
+CONSTANT Flags = {"plain"}
 CONSTANT Weak = {"InputsIgnoreDep"}
 VIEW view
 CONSTRAINT CexPrint
